@@ -1417,25 +1417,22 @@ def tag_ident(ctx, repo):
     ctx.rule("TAGID", "tagToIdentifier / identifierToTag escape classes agree: lower/digit -> '_c', upper -> 'C_', other -> two hex digits; the decoder tests the same three classes", floor=4)
     mod = repo.mod("ttLib/ttFont.py")
     esc = mod.func("_escapechar")
+    # each return of _escapechar with the character class that holds on every path to it (if/elif/else, separate ifs with
+    # early returns and swapped arms all read the same)
+    gesc = CFG(esc.node)
     classes = []
-    node = [st for st in esc.node.body if isinstance(st, ast.If)][0]
-    while node is not None:
-        pat = None
-        if isinstance(node.test, ast.Call) and call_name(node.test) == "re.match":
-            pat = try_fold(node.test.args[0])
-        ret = [norm(s.value) for s in node.body if isinstance(s, ast.Return)]
-        classes.append((pat, ret[0] if ret else None))
-        if len(node.orelse) == 1 and isinstance(node.orelse[0], ast.If):
-            node = node.orelse[0]
-        else:
-            ret = [norm(s.value) for s in node.orelse if isinstance(s, ast.Return)]
-            classes.append((None, ret[0] if ret else None))
-            node = None
+    for st in walk_no_nested(esc.node):
+        if isinstance(st, ast.Return) and st.value is not None:
+            pos = [t for t, pol in implied_atoms(gesc, st) if pol and isinstance(t, ast.Call) and call_name(t) == "re.match"]
+            classes.append((try_fold(pos[0].args[0]) if pos else None, norm(st.value)))
+    classes.sort(key=str)
     want = [("[a-z0-9]", "'_' + c"), ("[A-Z]", "c + '_'"), (None, "hex(byteord(c))[2:]")]
+    want = sorted(want, key=str)
     ctx.ob("TAGID", esc.where, f"escape classes {classes}", classes == want, "" if classes == want else f"expected {want}")
     itt = mod.func("identifierToTag")
     tests = [norm(n.test) for n in ast.walk(itt.node) if isinstance(n, (ast.If, ast.IfExp))]
-    ok = "ident[i] == '_'" in tests and "ident[i + 1] == '_'" in tests
+    tests_n = [t.replace("!=", "==") for t in tests]  # the complement test distinguishes the same classes
+    ok = "ident[i] == '_'" in tests_n and "ident[i + 1] == '_'" in tests_n
     ctx.ob("TAGID", itt.where, f"decoder class tests {tests}", ok, "" if ok else "decoder no longer distinguishes '_c' / 'C_' / hex pairs")
     steps = [norm(c) for c in calls_in(itt.node) if call_name(c) == "range"]
     ctx.ob("TAGID", itt.where, f"decoder consumes two characters per tag character: {steps}", steps == ["range(0, len(ident), 2)"])
